@@ -233,13 +233,15 @@ def stopping_rule(ctx, case, shape):
     comparison (`P.sumProductsTol`, exact rational iterates) must stop at the same iterate — same values, same warning flag.  Runs
     whose stopping decision is borderline (the model decides differently for tol(1 - 1e-6) and tol(1 + 1e-6)) are skipped."""
     from fractions import Fraction
-    for tol, kmax in ((1e-2, 40), (1e-3, 40)):
+    for method, tol, kmax in (('fixed-point', 1e-2, 40), ('fixed-point', 1e-3, 40), ('newton', 1e-3, 5)):
         fgg, info = semgen.build(shape, 'real', torch.float64)
-        res, warns, err = call(fgg, method='fixed-point', semiring=semgen.semiring_of('real', torch.float64), kmax=kmax, tol=tol)
+        res, warns, err = call(fgg, method=method, semiring=semgen.semiring_of('real', torch.float64), kmax=kmax, tol=tol)
         if err is not None:
             continue        # reported by the main stream
         T = Fraction(tol)
-        reps = ctx.driver.ask_many([f'P.sumProductsTol {gen.enc_shape(shape)} fixed-point {kmax} {T * f}' for f in (Fraction(999999, 1000000), Fraction(1000001, 1000000))])
+        # Newton's method proper (the semiring Newton step with the two maximum_ clamps, model Nw.newton) is run by P.sumProductsNTol
+        op = 'P.sumProductsTol' if method == 'fixed-point' else 'P.sumProductsNTol'
+        reps = ctx.driver.ask_many([f'{op} {gen.enc_shape(shape)} {method} {kmax} {T * f}' for f in (Fraction(999999, 1000000), Fraction(1000001, 1000000))])
         if any(isinstance(r, Exception) for r in reps) or reps[0] != reps[1] or not reps[0].startswith('ok'):
             ctx.count('real.stopping-rule.borderline-or-unmodelled-skipped')
             continue
@@ -250,10 +252,10 @@ def stopping_rule(ctx, case, shape):
             continue
         model = semgen.parse_val(t)
         ctx.evaluations += 1
-        ctx.count('real.stopping-rule.' + ('warned' if mwarn else 'stopped'))
-        cfg = dict(semiring='real', method='fixed-point', kmax=kmax, tol=tol)
+        ctx.count(f'real.stopping-rule.{method}.' + ('warned' if mwarn else 'stopped'))
+        cfg = dict(semiring='real', method=method, kmax=kmax, tol=tol)
         if bool(warns) != mwarn:
-            ctx.fail(f'fixed-point (tol={tol}, kmax={kmax}): the library ' + ('warns' if warns else 'does not warn') + ', the iteration with the absolute stopping test ' +
+            ctx.fail(f'{method} (tol={tol}, kmax={kmax}): the library ' + ('warns' if warns else 'does not warn') + ', the iteration with the absolute stopping test ' +
                      ('runs out of budget' if mwarn else 'stops within the budget'), dict(case, config=cfg), bool(warns), mwarn, tags=['stopping-rule', 'warning'])
             continue
         out = [semgen.dense_list(res[x]) if x in res else None for x in info['XL']]
@@ -264,7 +266,7 @@ def stopping_rule(ctx, case, shape):
             else:
                 bad = bad or len(o) != len(m) or not all((isinstance(c, float) and a == c) or (not isinstance(c, float) and abs(a - float(c)) <= 1e-9 * max(1.0, abs(float(c)))) for a, c in zip(o, m))
         if bad:
-            ctx.fail(f'fixed-point (tol={tol}, kmax={kmax}) does not return the first iterate within tol (absolute, every cell) of its predecessor',
+            ctx.fail(f'{method} (tol={tol}, kmax={kmax}) does not return the iterate at which the absolute stopping test first holds (model of the iteration, exact rationals)',
                      dict(case, config=cfg), out, [None if m is None else [str(c) for c in m] for m in model], tags=['stopping-rule', 'value'])
 
 
